@@ -5,6 +5,16 @@ project(): pure reader of what pymoca.parser built, in the vocabulary of ClassDe
 """
 
 
+def quote(piece):
+    """a comment piece of ClassDecl.tla as a Modelica string: ~ stands for an escaped double quote"""
+    return '"%s"' % piece.replace("~", '\\"')
+
+
+def comment_readings(text):
+    """the two readings of a comment the check accepts: escape sequences kept as written, or resolved"""
+    return (text.replace("~", '\\"'), text.replace("~", '"'))
+
+
 def _subs(ds):
     return "[" + ", ".join(ds) + "]" if ds else ""
 
@@ -16,7 +26,7 @@ def _decl(d):
     if d["value"] != "":
         s += " = " + d["value"]
     if d["comment"]:
-        s += " " + " + ".join('"%s"' % c for c in d["comment"])
+        s += " " + " + ".join(quote(c) for c in d["comment"])
     return s
 
 
@@ -50,7 +60,7 @@ def render_element(el, ind):
 def render_class(c, ind=""):
     head = "%s%s %s" % (ind, c["kind"], c["name"])
     if c["comment"]:
-        head += ' "%s"' % c["comment"]
+        head += " " + quote(c["comment"])
     lines = [head]
     for s in c["sections"]:
         if s["k"] == "elems":
